@@ -125,6 +125,26 @@ def sgn(x):
     return (x > 0) - (x < 0)
 
 
+def alpha_key(e):
+    """structure of e up to the numbering of indices and labels (own traversal)"""
+    from ufl.classes import FixedIndex, Label, MultiIndex
+
+    out = []
+    stack = [e]
+    while stack:
+        n = stack.pop()
+        if isinstance(n, MultiIndex):
+            out.append(("MI",) + tuple(("F", int(i)) if isinstance(i, FixedIndex) else ("I",) for i in n))
+        elif isinstance(n, Label):
+            out.append(("L",))
+        elif n._ufl_is_terminal_:
+            out.append((type(n).__name__, repr(n)))
+        else:
+            out.append((type(n).__name__, len(n.ufl_operands)))
+            stack.extend(reversed(n.ufl_operands))
+    return tuple(out)
+
+
 def check_case(case):
     import random
 
@@ -163,6 +183,9 @@ def check_case(case):
                 raise Violation("a == b but cmp_expr(a, b) != 0", {"kind": "eq-vs-cmp"})
             if i < j and C[i][j] == 0 and not (es[i] == es[j]):
                 ties += 1
+                if alpha_key(es[i]) != alpha_key(es[j]):
+                    raise Violation(f"operands that differ in more than index/label numbers compare as equal: {str(es[i])[:80]} vs {str(es[j])[:80]}",
+                                    {"kind": "tie-of-distinguishable"})
     for i, j, k in itertools.product(range(n), repeat=3):
         if C[i][j] <= 0 and C[j][k] <= 0 and C[i][k] > 0:
             raise Violation(f"cmp_expr is not transitive on ({str(es[i])[:60]}, {str(es[j])[:60]}, {str(es[k])[:60]})", {"kind": "transitivity"})
